@@ -570,8 +570,18 @@ def handleC04 (op : String) (fs : List (String × String)) : String :=
 
 def prefixes : List String := ["t2."]
 
+/-- D `t2.fontbad`: a font whose glyphs carry the stem lists of the given lengths (`hsn`, `vsn`: entries per glyph).
+`(*Glyph).encodeCharString` (model `T2Enc.encodeCharString`) reports an error exactly for a stem list of odd length,
+for EVERY glyph of the font: `Font.Write` must then refuse; otherwise the written font reads back with the same glyphs. -/
+def fontRefusedOrFaithful (hsn vsn : List Int) : String :=
+  if hsn.any (fun n => n % 2 != 0) || vsn.any (fun n => n % 2 != 0) then "refused" else "faithful"
+
 def handle (op : String) (fs : List (String × String)) : String :=
-  if op == "t2.fontw" then
+  if op == "t2.fontbad" then
+    match getField fs "hsn" >>= parseIntList, getField fs "vsn" >>= parseIntList with
+    | some hsn, some vsn => fontRefusedOrFaithful hsn vsn
+    | _, _ => "bad-case"
+  else if op == "t2.fontw" then
     match getField fs "file" >>= hexToNats with
     | some file => fontWidths file
     | none => "bad-case"
